@@ -96,7 +96,7 @@ HoldsAllX(prems, res, symSeq, i, va, ta) ==
 \* every term closed, of type bool, over interpreted constants and small base types
 ExaminableX(prems, res, N) ==
   LET ts == StepTerms(prems, res) IN
-  /\ \A t \in ts : TypeOf(t, <<>>) = BoolT /\ ConstsOf(t) \subseteq InterpX /\ Size(t) <= 60
+  /\ \A t \in ts : TypeOf(t, <<>>) = BoolT /\ ConstsOf(t) \subseteq InterpX /\ Size(t) <= 250
   /\ \A T \in UNION { TypesInX(t) : t \in ts } : OnlyBase(T) /\ DomSize(T, N) <= 256
   /\ ProdSizes(SetToSeq(UNION { VarsOf(t) : t \in ts }), 1, N) <= 5000
 EntailedX(prems, res, N) ==
